@@ -472,7 +472,7 @@ V("C20", "new-assert", "fire", "C20.R1", "sample length check turned into an ass
   (PDFF, "        if not len(nom) == self.config.channel_nbins[channel]:\n            raise exceptions.InvalidModel(\n                f'expected {self.config.channel_nbins[channel]} size sample data but got {len(nom)}'\n            )", "        assert len(nom) == self.config.channel_nbins[channel]"))
 V("C20", "param-dup-unguarded", "fire", "C20.R2", "duplicate parameter configs no longer refused",
   (PDFF, "        if parameter['name'] in _paramsets_user_configs:\n            raise exceptions.InvalidModel(\n                f\"Multiple parameter configurations for {parameter['name']} were found.\"\n            )\n", ""))
-V("C20", "histosys-length-check-removed", "fire", "C20.R4", "histosys loses its bin-count check",
+V("C20", "histosys-finalize-check-removed", "silent", "", "histosys loses its (now redundant) concatenated-length check in finalize; append still checks every cell",
   (MD + "histosys.py", "                if (\n                    not len(sample[\"data\"][\"nom_data\"])\n                    == len(sample[\"data\"][\"lo_data\"])\n                    == len(sample[\"data\"][\"hi_data\"])\n                ):", "                if False:"))
 V("C20", "setpoi-unchecked", "fire", "C20.R6", "set_poi accepts undeclared names",
   (PDFF, "        if name not in self.parameters:\n            raise exceptions.InvalidModel(\n                f\"The parameter of interest '{name:s}' cannot be fit as it is not declared in the model specification.\"\n            )\n", ""))
@@ -583,3 +583,8 @@ V("C01", "rate-clip-bin-before-sum", "fire", "C01.R12", "bin clip applied to the
   ("src/pyhf/pdf.py", "        newresults = tensorlib.sum(newbysample, axis=0)\n        if self.clip_bin_data is not None:\n            newresults = tensorlib.clip(newresults, self.clip_bin_data, max_value=None)", "        if self.clip_bin_data is not None:\n            newbysample = tensorlib.clip(newbysample, self.clip_bin_data, max_value=None)\n        newresults = tensorlib.sum(newbysample, axis=0)"))
 V("C01", "rate-bysample-no-swap", "fire", "C01.R12", "by-sample result keeps the sample axis first",
   ("src/pyhf/pdf.py", "            batch_first = tensorlib.einsum('ij...->ji...', newbysample)", "            batch_first = newbysample"))
+
+V("C20", "histosys-append-check-removed", "fire", "C20.R4", "histosys loses its per-channel length check",
+  (MD + "histosys.py", "        if thismod and not (\n            len(thismod['data']['lo_data']) == len(thismod['data']['hi_data']) == len(nom)\n        ):", "        if False:"))
+V("C20", "inits-cast-before-length-check", "fire", "C20.R6", "inits overrides are converted before (and instead of) the length check",
+  ("src/pyhf/parameters/utils.py", "            elif isinstance(v, list) and default_v and len(v) != len(default_v):", "            elif k == 'inits' and isinstance(v, list):\n                v = [float(x) for x in v]\n            elif isinstance(v, list) and default_v and len(v) != len(default_v):"))
